@@ -66,7 +66,7 @@ static const convn_t convn_table[] = {
 #define NCONVN 9
 #define NMAX 6
 #define NZ0N 8
-#define NMATN 6
+#define NMATN 8
 
 static int n_entry(int tier) { return tier ? 7 : 3; }
 static int n_mats(int tier)
@@ -326,6 +326,37 @@ static void run_zi2(int tier, int f, int zi, vf_result *r)
 static void gen_matn(int n, int type, int k, double complex *m)
 {
     double sc = type == PT_Z ? 50.0 : type == PT_Y ? 0.02 : 1.0;
+    if (k >= 6) {
+	/*
+	 * Exactly singular inputs for which most conversions are still
+	 * defined (a floating network has a singular Y, a shunt element a
+	 * singular Z, an ideal open or short an S with eigenvalue +1 or -1);
+	 * which conversions are not is decided by the oracle from the port
+	 * relations, never from the route an implementation takes.
+	 *   6  Laplacian of a chain with unequal complex branches (rank n-1;
+	 *      for S: diag(+1, -1, +1, ...))
+	 *   7  all entries equal (rank 1; for S: 0.5 everywhere)
+	 */
+	for (int i = 0; i < n * n; ++i)
+	    m[i] = 0;
+	if (k == 6 && type != PT_S) {
+	    for (int b = 0; b + 1 < n; ++b) {
+		double complex g = sc * (1.0 + 0.5 * b + 0.25 * I * (b + 1));
+		m[b * n + b] += g;
+		m[(b + 1) * n + b + 1] += g;
+		m[b * n + b + 1] -= g;
+		m[(b + 1) * n + b] -= g;
+	    }
+	} else if (k == 6) {
+	    for (int i = 0; i < n; ++i)
+		m[i * n + i] = (i & 1) ? -1.0 : 1.0;
+	} else {
+	    double complex v = type == PT_S ? 0.5 / n : sc * (0.8 - 0.3 * I);
+	    for (int i = 0; i < n * n; ++i)
+		m[i] = v;
+	}
+	return;
+    }
     for (int i = 0; i < n; ++i) {
 	for (int j = 0; j < n; ++j) {
 	    double complex v = vf_cunit(1000 + (uint64_t)k * 64 + (uint64_t)n,
@@ -394,7 +425,10 @@ static void run_convn(int f, int n, int zk, vf_result *r)
 	    }
 	    ++nonsing;
 	    for (int p = 0; p < n; ++p) {
-		double e = cabs(out[p] - ref[p]) / (cabs(ref[p]) + 1e-300);
+		/* an input impedance that is (nearly) zero is judged against
+		   a thousandth of the port's reference impedance */
+		double e = cabs(out[p] - ref[p]) /
+		    (cabs(ref[p]) + 1e-3 * cabs(z0[p]));
 		if (e > worst) worst = e;
 		if (!(e <= 1e-9)) {
 		    snprintf(sig, sizeof(sig), "zin:%s", c->name);
